@@ -83,6 +83,17 @@ def check_merge(task):
             return V("source-view-changed", "view of the still-open source changed by merge")
         if kind == "mf" and bytes(rec.manifest) != pre_manifest:
             return V("source-manifest-changed", "manifest of the still-open source changed by merge")
+        # merging onto the record's own path must be refused and must not touch the source
+        nck += 1
+        try:
+            rec.merge_files(Path(d) / "rec")
+            return V("merge-onto-itself-not-refused", "merge_files(<own path>) succeeded")
+        except Exception:
+            pass
+        if ih5lib.dir_hashes(d) != h0:
+            return V("source-files-changed", "refused merge onto the record's own path changed/removed files of the source")
+        if ih5lib.dump(rec) != pre_view:
+            return V("source-view-changed", "refused merge onto the record's own path changed the view")
         # (a) merged tree = overlay view
         nck += 1
         try:
@@ -121,6 +132,9 @@ def check_merge(task):
                         return V("stub-merge-not-refused", "merge_files on a stub succeeded")
                     except Exception:
                         pass
+                    left = [f for f in os.listdir(md) if f.startswith("stubmerge")]
+                    if left:
+                        return V("stub-merge-left-files", f"refused merge of a stub left files behind: {left}")
                 finally:
                     stub.close()
                 s2 = cls(Path(sd) / "stub", "r+")
@@ -132,6 +146,9 @@ def check_merge(task):
                         return V("stub-merge-not-refused", "merge_files on stub+patch succeeded")
                     except Exception:
                         pass
+                    left = [f for f in os.listdir(md) if f.startswith("stubmerge")]
+                    if left:
+                        return V("stub-merge-left-files", f"refused merge of stub+patch left files behind: {left}")
                 finally:
                     s2.close()
             finally:
